@@ -14,6 +14,34 @@ from vt import vthreading
 from vt.core import HarnessError, Part, jsonable
 
 
+def gc_quiet(fn):
+    """Decorator for harness functions fn(params, prefix, part) -> Scheduler.  The cyclic garbage collector
+    must not run inside an execution: Session.__del__ calls shutdown(), which takes virtual locks, so a
+    collection that happens to start in a virtual thread (of this or of the previous execution's dead
+    world) would insert scheduling points at GC-chosen moments and make replays diverge.  Collection is
+    switched off for the execution and done right after it, outside any scheduler."""
+    import functools
+    import gc
+
+    @functools.wraps(fn)
+    def wrapper(*a, **kw):
+        was = gc.isenabled()
+        gc.disable()
+        try:
+            return fn(*a, **kw)
+        finally:
+            _GC_COUNT[0] += 1
+            if _GC_COUNT[0] % GC_EVERY == 0:
+                gc.collect()
+            if was:
+                gc.enable()
+    return wrapper
+
+
+_GC_COUNT = [0]
+GC_EVERY = 1
+
+
 class Abort(BaseException):
     """Raised inside virtual threads to unwind them when an execution is torn down."""
 
